@@ -186,10 +186,18 @@ UndefAttr(v, a) == VUndef([k |-> "attr", n |-> a, o |-> v.t])
 GetAttr(s, v, a) ==
     IF v.t = "undef" THEN
         IF UKof(v, UK) = "chainable" THEN R(v, s) ELSE Fail(s, "UndefinedError")
-    ELSE LET pa == PyAttr(s, v, a) IN
-         IF pa.found THEN R(pa.v, s)
-         ELSE LET pi == PyItem(s, v, StrKey(a)) IN
-              IF pi.found THEN R(pi.v, s)
+    ELSE LET pa0 == PyAttr(s, v, a)
+             \* C38: an attribute whose fetch raises AttributeError counts as missing (then the item
+             \* is tried); any other exception propagates unchanged
+             pa == IF pa0.found /\ pa0.v.t = "raiser" /\ pa0.v.exc = "AttributeError"
+                   THEN [found |-> FALSE, v |-> VNone] ELSE pa0 IN
+         IF pa.found /\ pa.v.t = "raiser" THEN Fail(s, "Raised:" \o pa.v.id)
+         ELSE IF pa.found THEN R(pa.v, s)
+         ELSE LET pi0 == PyItem(s, v, StrKey(a))
+                  pi == IF pi0.found /\ pi0.v.t = "raiser" /\ pi0.v.exc \in {"KeyError", "IndexError", "TypeError", "AttributeError"}
+                        THEN [found |-> FALSE, v |-> VNone] ELSE pi0 IN
+              IF pi.found /\ pi.v.t = "raiser" THEN Fail(s, "Raised:" \o pi.v.id)
+              ELSE IF pi.found THEN R(pi.v, s)
               ELSE IF v.t \in {"dict", "list", "str"} THEN Fail(s, "EXCLUDED")   \* builtin methods: not modelled
               ELSE IF ClosedAttrs(v) THEN R(UndefAttr(v, a), s)
               ELSE Fail(s, "EXCLUDED")
@@ -200,11 +208,18 @@ GetItem(s, v, key) ==
     ELSE IF key.t = "undef" /\ v.t \in {"dict", "list", "obj"} THEN
          \* an undefined key is just a key that is not found (hashable, equal only to undefined)
          R(UndefAttr(v, "?"), s)
-    ELSE LET pi == PyItem(s, v, key) IN
-         IF pi.found THEN R(pi.v, s)
+    ELSE LET pi0 == PyItem(s, v, key)
+             \* C38: LookupError / TypeError / AttributeError from the item fetch mean "no such item"
+             pi == IF pi0.found /\ pi0.v.t = "raiser" /\ pi0.v.exc \in {"KeyError", "IndexError", "TypeError", "AttributeError"}
+                   THEN [found |-> FALSE, v |-> VNone] ELSE pi0 IN
+         IF pi.found /\ pi.v.t = "raiser" THEN Fail(s, "Raised:" \o pi.v.id)
+         ELSE IF pi.found THEN R(pi.v, s)
          ELSE IF KeyName(key) # "?" THEN
-              LET pa == PyAttr(s, v, KeyName(key)) IN
-              IF pa.found THEN R(pa.v, s)
+              LET pa0 == PyAttr(s, v, KeyName(key))
+                  pa == IF pa0.found /\ pa0.v.t = "raiser" /\ pa0.v.exc = "AttributeError"
+                        THEN [found |-> FALSE, v |-> VNone] ELSE pa0 IN
+              IF pa.found /\ pa.v.t = "raiser" THEN Fail(s, "Raised:" \o pa.v.id)
+              ELSE IF pa.found THEN R(pa.v, s)
               ELSE IF v.t \in {"dict", "list", "str"} THEN
                        \* string key could name a builtin method (d['items']): not modelled
                        IF v.t = "dict" /\ KeyName(key) \in {"a", "b", "c", "x", "y", "z", "k"} THEN R(UndefAttr(v, KeyName(key)), s)
@@ -347,6 +362,14 @@ CallValue(f, args, kw, s, E) ==
            IF f.mode = "const" THEN R(f.ret, s2)
            ELSE IF f.mode = "arg0" THEN (IF args = <<>> THEN R(f.ret, s2) ELSE R(args[1], s2))
            ELSE IF f.mode = "nargs" THEN R(VInt(Len(args) + 10 * Len(kw.n)), s2)
+           ELSE IF f.mode = "raise_at" THEN
+               \* C38: the k-th call of this callable raises a private exception, which propagates
+               LET prior == Cardinality({j \in 1..Len(s.log) : s.log[j][1] = "call" /\ s.log[j][2] = f.id}) IN
+               IF prior + 1 = f.k THEN Fail(s2, "Raised:" \o f.id)
+               ELSE IF f.then = "arg0" /\ args # <<>> THEN R(args[1], s2) ELSE R(f.ret, s2)
+           ELSE IF f.mode = "stopiter" THEN
+               \* a StopIteration escaping a callable becomes an undefined value (documented)
+               R(VUndef([k |-> "hint", n |-> "value was undefined because a callable raised a StopIteration exception"]), s2)
            ELSE Fail(s2, "EXCLUDED")
       [] f.t = "builtin" ->
            IF f.n = "range" THEN
@@ -658,6 +681,9 @@ FilterItems(node, items, i, s, E, acc) ==
 
 \* run a for loop over the value `itv`; `isRec`: called through loop(...)
 RunLoop(node, itv, depth0, s, E, isRec, inner) ==
+    \* C38: an iterable whose k-th step raises: every way of consuming it raises that exception
+    IF itv.t = "iterfault" THEN Fail(s, "Raised:" \o itv.id).S
+    ELSE
     LET it == IterItems(itv) IN
     IF ~it.ok THEN Fail(s, it.err).S
     ELSE
@@ -756,7 +782,10 @@ Ex(st, s, E) ==
       [] st.k = "out" ->
            LET r == Ev(st.e, s, E) IN
            IF Bad(r) THEN r.S
-           ELSE LET o == OutputOf(r.v, E.auto, UK)
+           ELSE LET o == IF r.v.t = "obj" /\ "str" \in DOMAIN Objs[r.v.id]
+                         THEN (IF Objs[r.v.id].str.t = "raiser" THEN Err("Raised:" \o Objs[r.v.id].str.id)
+                               ELSE OutputOf(Objs[r.v.id].str, E.auto, UK))
+                         ELSE OutputOf(r.v, E.auto, UK)
                     s1 == IF Fld(Case, "emit_values", FALSE) /\ r.v.t \in {"int", "bool", "none", "str", "list", "dict", "undef", "obj", "fn"}
                           THEN Log(r.S, <<"value", r.v>>) ELSE r.S IN
                 IF ~o.ok THEN Fail(s1, o.err).S
